@@ -31,6 +31,10 @@ D2R = sp.pi / 180
 
 
 MUTANTS = [
+    ("declination formatter rejects the poles", "AegeanTools/angle_tools.py",
+     "    if not np.isfinite(x):\n        return 'XX:XX:XX.XX'\n    if x < 0:",
+     "    if not -90 < x < 90:\n        return 'XX:XX:XX.XX'\n    if x < 0:",
+     "C17-R9"),
     ("translated RA snapped to 0 near 360", "AegeanTools/angle_tools.py",
      "    ra_out = ra + np.degrees(np.arctan2(y, x))\n",
      "    ra_out = (ra + np.degrees(np.arctan2(y, x))) % 360\n"
@@ -112,6 +116,7 @@ def run(ctx):
     formulae(ctx, prog, {"R1": "C17-R1", "R2": "C17-R2", "R3": "C17-R3",
                          "R6": "C17-R6"})
     sexagesimal(ctx, prog, mod)
+    placeholder_rule(ctx, prog, "C17-R9")
     from .. import precision
     precision.rule(
         ctx, prog, "C17-R8", [lambda sh: sh.startswith("angle_tools.")],
@@ -279,6 +284,46 @@ def formulae(ctx, prog, R):
                   "y = %s" % y, node=fi.node)
         ctx.check(R["R3"], fi, "atan2 denominator", sym.is_zero(x - xr),
                   "x = %s" % x, node=fi.node)
+
+
+def placeholder_rule(ctx, prog, rule):
+    """the 'XX:XX:XX.XX' placeholder stands for undefined input only"""
+    from ..concrete import Unknown, ev
+    ctx.rule(rule, "formatting is total on its domain: dec2dms / dec2hms "
+             "return the XX:XX:XX.XX placeholder exactly for non-finite "
+             "input -- the guard is interpreted for nan, +-inf and for "
+             "finite values including the end points of the domain "
+             "(dec = +-90, ra = 0 and just below 360)")
+    nan, inf = float("nan"), float("inf")
+    n = 0
+    for name, finite in (("dec2dms", [90.0, -90.0, 0.0, -0.5, 45.25, 89.9999]),
+                         ("dec2hms", [0.0, 359.9999, 180.0, 15.5, 360.0])):
+        fi = prog.func("angle_tools." + name)
+        par = fi.params[0]
+        guards = [st for st in walk_no_nested(fi.node) if isinstance(st, ast.If)
+                  and any(isinstance(r, ast.Return) and
+                          isinstance(r.value, ast.Constant) and
+                          isinstance(r.value.value, str) and
+                          "XX" in r.value.value for r in st.body)]
+        if not guards:
+            raise AnalysisError("%s: placeholder guard of %s" % (rule, name))
+        for gd in guards:
+            try:
+                bad_fin = [v for v in finite if ev(gd.test, {par: v})]
+                bad_non = [v for v in (nan, inf, -inf)
+                           if not ev(gd.test, {par: v})]
+            except Unknown as u:
+                ctx.unknown_site(rule, fi, "guard %s not interpreted (%s)" %
+                                 (norm(gd.test, 40), u), node=gd)
+                continue
+            n += 1
+            ctx.check(rule, fi, "placeholder guard " + norm(gd.test, 50),
+                      not bad_fin and not bad_non,
+                      "%s returns the placeholder for the valid input(s) %s "
+                      "and formats the undefined input(s) %s: the string of a "
+                      "valid coordinate cannot be parsed back" %
+                      (name, bad_fin, bad_non), node=gd)
+    ctx.floor(rule, n, 2, "placeholder guards interpreted")
 
 
 def sexagesimal(ctx, prog, mod, R4="C17-R4", R5="C17-R5"):
